@@ -142,10 +142,12 @@ impl SimCfg {
 
     /// Swarm-style random configuration drawn from the `knobs` and `sched` streams.
     pub fn swarm(knobs: &mut Rng, sched_seed: u64, rng_seed: u64, max_steps: usize) -> SimCfg {
-        let pool = match knobs.below(10) {
-            0 => 1,
-            1 => 2,
-            2 => 16,
+        let pool = match knobs.below(20) {
+            0 | 1 => 1,
+            2 | 3 => 2,
+            4 | 5 => 16,
+            // more workers than cores, and usually than items
+            6 => *knobs.pick(&[17usize, 32, 64]),
             _ => knobs.range_usize(1, 16),
         };
         let take = *knobs.pick(&[Take::Front, Take::Back, Take::Random, Take::Chunks, Take::Chunks]);
